@@ -186,7 +186,15 @@ fn words_at(a: A, from: usize) -> (Words, usize) {
     let mut max_len = None;
     let mut last = t;
     for bits in ["16", "32", "64"] {
-        let i = find(a, t, &["DataSelector", "<", bits, ">", "{"]).expect("selector");
+        // `DataSelector<16> {` - the const argument may carry a type suffix (`16u32`) when it is interpolated
+        let i = (t..a.len().saturating_sub(4))
+            .find(|&i| {
+                a[i] == "DataSelector" && a[i + 1] == "<" && a[i + 3] == ">" && a[i + 4] == "{" && {
+                    let d: String = a[i + 2].chars().take_while(|c| c.is_ascii_digit()).collect();
+                    d == bits && matches!(&a[i + 2][d.len()..], "" | "u32")
+                }
+            })
+            .expect("selector");
         let open = i + 4;
         let end = close_of(a, open);
         let body = &a[open..end];
@@ -534,18 +542,30 @@ fn run(op: &str, args: &[&str]) -> String {
     };
     let mut atoms = Vec::new();
     flatten(out, &mut atoms);
-    check_ns(&atoms, emb);
-    let (shape, val) = match op {
-        "int" => {
-            let (s, v) = int_shape(&atoms);
-            assert!(s.contains(if signed { " I " } else { " U " }), "constructor type");
-            (s, hi(&v))
+    // the emitted code is read by the shape of the three generators; code this reader does not recognise (or whose
+    // constructor refuses the arguments) is reported as such together with the run-time value, so that the crate phase
+    // still compiles the real invocation and compares what it builds with the run-time parser
+    let read = catch_unwind(AssertUnwindSafe(|| {
+        check_ns(&atoms, emb);
+        match op {
+            "int" => {
+                let (s, v) = int_shape(&atoms);
+                assert!(s.contains(if signed { " I " } else { " U " }), "constructor type");
+                (s, hi(&v))
+            }
+            "fbin" => float_shape(&atoms, false),
+            "fdec" => float_shape(&atoms, true),
+            _ => ratio_shape(&atoms),
         }
-        "fbin" => float_shape(&atoms, false),
-        "fdec" => float_shape(&atoms, true),
-        _ => ratio_shape(&atoms),
-    };
-    format!("{} ok {} val {} rt {}", toks.trim_end(), shape, val, rt)
+    }));
+    match read {
+        Ok((shape, val)) => format!("{} ok {} val {} rt {}", toks.trim_end(), shape, val, rt),
+        Err(e) => {
+            let msg = e.downcast_ref::<String>().cloned().or_else(|| e.downcast_ref::<&str>().map(|s| s.to_string())).unwrap_or_default();
+            let word: String = msg.chars().filter(|c| c.is_ascii_alphanumeric()).take(40).collect();
+            format!("{} shapeerr {} rt {}", toks.trim_end(), if word.is_empty() { "unknown".to_string() } else { word }, rt)
+        }
+    }
 }
 
 fn main() {
